@@ -3,7 +3,7 @@ package cpumem
 // VerifAlloc: one allocation on an arbitrary valid node through the plugin API:
 // deploy capacity, CalculateDeploy, commit by SetNodeResourceUsage, rollback.
 //
-// arg: c=<cores>,numa=<0|1>,b=<bind 0|1>,r=<request in 1/1000 cores>,sb=,ms=,mp=,k=<max count>,grid=<0|1>
+// arg: c=<cores>,numa=<0|1>,b=<bind 0|1>,r=<request in 1/1000 cores>,lim=<limit in 1/1000 cores>,sb=,ms=,mp=,k=<max count>,grid=<0|1>
 
 import (
 	"context"
@@ -17,6 +17,7 @@ func VerifAlloc(arg string) {
 	numa := vParam(arg, "numa", 0) == 1
 	bind := vParam(arg, "b", 1) == 1
 	r := vParam(arg, "r", 1000)
+	lim := vParam(arg, "lim", 0) // cpu limit in 1/1000 cores (0: same as the request)
 	sb := vParam(arg, "sb", 100)
 	ms := vParam(arg, "ms", -1)
 	mp := vParam(arg, "mp", 2*sb)
@@ -31,6 +32,12 @@ func VerifAlloc(arg string) {
 	memReq := vInt64("mem_request", 0, vMemMax)
 	count := vInt("count", 1, maxCount)
 	raw := vRequest(bind, r, memReq, memReq)
+	if lim > 0 {
+		raw["cpu-limit"] = float64(lim) / 1000
+		if bind && lim > r {
+			r = lim // a bound request is raised to its limit (documented normalisation)
+		}
+	}
 	req := &types.WorkloadResourceRequest{}
 	req.Parse(raw)
 	if req.Validate() != nil {
